@@ -55,21 +55,22 @@ SessionOk(e) ==
   /\ (~OkClass(e.steps[n].res.v)) \/ n = 64                                              \* repeated parsing terminates
 
 \* ---------------------------------------------------------------- C05: all cuts of one complete message
-PrefixesOk(e) ==
+PrefixesOk(e) ==      \* e.ks: the cut positions tried (all of 0..n-1 for ordinary messages, a selection for maximal ones)
   LET n == Len(e.full)  d == ParseVerdict(e.full, e.sh) IN
   /\ d.v = "msg" /\ d.consumed = n /\ WellFormed(d.m)       \* premise (otherwise the driver is wrong)
-  /\ Len(e.cuts) = n
-  /\ \A c \in 0..(n - 1) : e.cuts[c + 1].v = "inc" /\ HintOk(e.cuts[c + 1], n - c)
-  /\ e.sh => /\ Len(e.ccuts) = n
-             /\ e.ccuts[1].v = "none"
-             /\ \A c \in 1..(n - 1) : e.ccuts[c + 1].v = "inc" /\ HintOk(e.ccuts[c + 1], n - c)
+  /\ Len(e.cuts) = Len(e.ks)
+  /\ \A i \in 1..Len(e.ks) : e.ks[i] \in 0..(n - 1) /\ e.cuts[i].v = "inc" /\ HintOk(e.cuts[i], n - e.ks[i])
+  /\ e.sh => /\ Len(e.ccuts) = Len(e.ks)
+             /\ \A i \in 1..Len(e.ks) : IF e.ks[i] = 0 THEN e.ccuts[i].v = "none" ELSE e.ccuts[i].v = "inc" /\ HintOk(e.ccuts[i], n - e.ks[i])
 
 \* ---------------------------------------------------------------- C06
 ForwardOk(e) == LET d == Forward(e.buf)  r == e.res IN r.v = d.v /\ (d.v = "found" => r.dropped = d.dropped)
 PatternFreeBefore(junk, msg) == FindPattern(junk \o msg) = Len(junk) + 1
-JunkParseOk(e) ==     \* a = parse(junk ++ msg ++ sfx), b = parse(msg ++ sfx), both with storage header
-  (PatternFreeBefore(e.junk, e.msg) /\ e.b.v = "msg") =>
-     (e.a.v = "msg" /\ e.a.m = e.b.m /\ e.a.consumed = e.b.consumed + Len(e.junk))
+JunkParseOk(e) ==     \* a = parse(junk ++ msg ++ sfx), b = parse(msg ++ sfx), both with storage header and the same (optional) filter
+  (PatternFreeBefore(e.junk, e.msg) /\ e.b.v \in {"msg", "filtered"}) =>
+     /\ e.a.v = e.b.v /\ e.a.consumed = e.b.consumed + Len(e.junk)          \* same remainder
+     /\ e.b.v = "msg" => e.a.m = e.b.m
+     /\ e.b.v = "filtered" => e.a.n = e.b.n
 RecoverOk(e) ==       \* parts: [junk, msg, alone = parse(msg)]; steps: the session over junk1 msg1 junk2 msg2 ... tail
   LET n == Len(e.parts)
       premise == /\ \A i \in 1..n : PatternFreeBefore(e.parts[i].junk, e.parts[i].msg) /\ e.parts[i].alone.v = "msg"
